@@ -364,6 +364,16 @@ func (sm *Subscriptions) ProcessWhenArgs(e *Event) []chan struct{} {
 	return ret
 }
 
+// ProcessWhenArgsCtx collects the args-matching subscriptions whose contexts
+// have expired, and returns theirs channels.
+func (sm *Subscriptions) ProcessWhenArgsCtx() []chan struct{} {
+	// locks
+	sm.Mx.Lock()
+	defer sm.Mx.Unlock()
+
+	return sm.processWhenArgsCtx()
+}
+
 func (sm *Subscriptions) processWhenArgsCtx() []chan struct{} {
 	var ret []chan struct{}
 
